@@ -47,8 +47,8 @@ def gen_c03(rng, tier):
 
 
 def gen_c04(rng, tier):
-    return (gen2.gen_pointwise(rng, B(tier, 600, 12000), gen.BINOPS_REL, followups=True) +
-            gen2.gen_tolerance_block(rng, B(tier, 60, 1000), ["rel"]) + gen2.gen_decimal_block(rng, B(tier, 60, 1000)))
+    return (gen2.gen_pointwise(rng, B(tier, 600, 12000), gen.BINOPS_REL, followups=True, requery_p=0.3) +
+            gen2.gen_tolerance_block(rng, B(tier, 60, 1000), ["rel"]) + gen2.gen_decimal_block(rng, B(tier, 100, 1500)))
 
 
 def gen_c05(rng, tier):
